@@ -385,15 +385,17 @@ var specs = map[string]*CheckSpec{
 		Rule: "one job per posting pattern; amounts and opening balances symbolic; committed transaction and persisted log compared posting by posting with the request; acceptance compared with the in-order coverage reading",
 	},
 	"C10": {
-		ID: "C10", Patterns: []string{cmdPkg}, NeedHelper: true,
+		ID: "C10", Patterns: []string{cmdPkg, v1Pkg, v2Pkg}, NeedHelper: true,
 		Instrument: true,
 		Runs: []HarnessRun{commandRun("ZZ_C10", countShapes(cmdPkg, "ZZ_C10N"), harnessDesc(cmdPkg, "ZZ_C10Desc", "revert scenario:"), []int{0, 5}),
 			commandRun("ZZ_C10Reverse", rangeShapes(8), func(s *Session, i int) string { return fmt.Sprintf("TransactionData.Reverse on %d postings", i) }, []int{4}),
+			{Pkg: v2Pkg, Dir: "internal/api/v2", Mod: "ledger", Fn: "ZZ_C10Http", Shapes: rangeShapes(5), Cfg: cmdCfg, Desc: harnessDesc(v2Pkg, "ZZ_C10HttpDesc", "v2"), CanaryShapes: []int{0, 4}},
+			{Pkg: v1Pkg, Dir: "internal/api/v1", Mod: "ledger", Fn: "ZZ_C10Http", Shapes: rangeShapes(5), Cfg: cmdCfg, Desc: harnessDesc(v1Pkg, "ZZ_C10HttpDesc", "v1"), CanaryShapes: []int{0, 4}},
 			concRun("ZZ_C10Race", "ZZ_C10RaceN", "ZZ_C10RaceDesc", "", 1, 2, false, nil, []int{0})},
 		Bounds: func(tier string) map[string]any {
-			return map[string]any{"reverse": "TransactionData.Reverse on 0..7 postings, arbitrary amounts", "original_transactions": "11 posting patterns (1-5 postings) x forced/unforced x with/without an intermediate spend of the delivered funds", "amounts_and_balances": "unbounded non-negative integers", "racing_reverts": "2-3 concurrent reverts of one transaction, forced and unforced, pre-emption budget 1 (thorough 2), blocking switches deterministic"}
+			return map[string]any{"reverse": "TransactionData.Reverse on 0..7 postings, arbitrary amounts", "http": "v1/v2 revertTransaction with an arbitrary id in the URL and the force (v1: disableChecks) parameter absent or an arbitrary alphanumeric string of 1..4 bytes, against a recording backend", "original_transactions": "11 posting patterns (1-5 postings) x forced/unforced x with/without an intermediate spend of the delivered funds", "amounts_and_balances": "unbounded non-negative integers", "racing_reverts": "2-3 concurrent reverts of one transaction, forced and unforced, pre-emption budget 1 (thorough 2), blocking switches deterministic"}
 		},
-		Assumptions: cmdStubs, Encoded: append([]string{"ledger.(*TransactionData).Reverse", "ledger.Postings.Reverse", "ledger.MarkReverts"}, cmdEncoded...),
+		Assumptions: cmdStubs, Encoded: append([]string{"ledger.(*TransactionData).Reverse", "ledger.Postings.Reverse", "ledger.MarkReverts", "v1.revertTransaction", "v2.revertTransaction", "libs/api.QueryParamBool"}, cmdEncoded...),
 		Rule: "create the original, optionally move the funds on, revert (forced or not), revert again; postings, reverted flag, balances and log count compared symbolically",
 		MaxPaths: func(tier string) int { return 2000000 },
 	},
